@@ -1,0 +1,26 @@
+//go:build verif
+
+package echo
+
+// Contracts for the deductive checker in /verif (comment-only; compiled only under the verif tag).
+//
+// Echo broadcast, round 3: an output is produced only if, for every sender id and every echoer e (both other
+// than this party, e != id), the echoer's round-2 message is present, valid, and its digest for id equals the
+// digest of this party's own copy of id's payload. qat(p, a) is the a-th member of the quorum iteration.
+
+//@ pure func echoOK(p *Participant, r2 V, id sharing.ID, e sharing.ID) bool = res(r2.Get(e), 1) && res(r2.Get(e), 0).Validate(p, e) == nil && res(ct.CompareBytes(echoHash(p.state.messages[id])[:], res(r2.Get(e), 0).EchoHashes[id][:]), 1) == 1
+//@ pure func qat(p *Participant, a Int) Int = seqat(p.quorum.Iter(), a, int)
+//@ pure func qn(p *Participant) Int = seqlen(p.quorum.Iter())
+
+//@ func (*Participant).Round3
+//@   property C11, C04
+//@   ensures err == nil ==> forall a, b Int :: 0 <= a && a < qn(p) && 0 <= b && b < qn(p) && qat(p, a) != p.sharingID && qat(p, b) != p.sharingID && qat(p, b) != qat(p, a) ==> echoOK(p, r2, qat(p, a), qat(p, b))
+//@   ensures p.state.messages == old(p.state.messages)
+//@   loop range(p.quorum.Iter())
+//@     invariant forall a, b Int :: 0 <= a && a < $i && 0 <= b && b < qn(p) && qat(p, a) != p.sharingID && qat(p, b) != p.sharingID && qat(p, b) != qat(p, a) ==> echoOK(p, r2, qat(p, a), qat(p, b))
+//@     invariant p.state.messages == old(p.state.messages)
+//@   loop range(p.quorum.Iter())#2
+//@     invariant forall b Int :: 0 <= b && b < $i && qat(p, b) != p.sharingID && qat(p, b) != id ==> echoOK(p, r2, id, qat(p, b))
+//@     invariant p.state.messages == old(p.state.messages) && message == p.state.messages[id] && messageHash == echoHash(message)
+//@   loop range(p.quorum.Iter())#3
+//@     invariant p.state.messages == old(p.state.messages)
